@@ -325,6 +325,11 @@ func Now() time.Time { return time.Now() }
 // can branch on it with ordinary Go control flow at a place of its choosing).
 func Concretely(c bool) bool { return c }
 
+// FromRandomSource: s was produced by the cryptographic random string generator (uniuri).
+// Symbolically this is known from the model (and what such a generator returns is then assumed
+// distinct); natively it cannot be observed and need not be: real strings are simply compared.
+func FromRandomSource(s string) bool { return false }
+
 // Bytes returns n arbitrary bytes.
 func Bytes(name string, n int) []byte {
 	out := make([]byte, n)
